@@ -683,7 +683,8 @@ def trained_precond(rng, steps=None, **kw):
                            factor_update_steps=rng.choice([1, 2]), inv_update_steps=rng.choice([1, 2, 4]),
                            kl_clip=rng.choice([0.001, 1.0]), lr=rng.choice([0.1, 1.0]),
                            compute_eigenvalue_outer_product=rng.random() < 0.5,
-                           update_factors_in_hook=rng.random() < 0.5, **kw)
+                           update_factors_in_hook=rng.random() < 0.5,
+                           **kw)
     n = rng.choice([0, 1, 2, 3, 5]) if steps is None else steps
     for _ in range(n):
         model.zero_grad()
@@ -1090,6 +1091,19 @@ for _k in (_LI, _LE):
     _layer_gen(_k, 'compute_g_inv', _damp, _drop_factor)
     _layer_gen(_k, 'preconditioned_grad', _damp, _drop_second_order)
     _layer_gen(_k, 'memory_usage')
+def _fresh_low_precision_batch(rng, p, layer):
+    """Sometimes: a layer that has not built its factor yet, accumulating in a non-default factor dtype."""
+    import torch
+    if rng.random() < 0.4:
+        dt = rng.choice([torch.bfloat16, torch.float64, torch.float16])
+        layer.factor_dtype = dt
+        layer._a_factor = layer._g_factor = None
+        for f in ('_a_batch', '_g_batch'):
+            b = getattr(layer, f)
+            if b is not None:
+                setattr(layer, f, b.to(dt))
+
+
 _layer_gen(_LB, 'update_a_factor', _alpha)
 _layer_gen(_LB, 'update_g_factor', _alpha)
 _layer_gen(_LB, 'reset_batch')
